@@ -476,6 +476,15 @@ func genPassHalf(r *rng, names []string, hop [][2]string, maxBody int) passHalf 
 func init() {
 	registerOp("pass", runPass)
 	register("pass", "C08: request / response pass-through through the real proxy stack (both protocols, bodies up to MiBs in pieces, trailers, concurrency)", func(c *ctx) {
+		// HTTP/2 request bodies ended by a trailing HEADERS frame, trailer fields announced or not, empty trailer block or not
+		for _, body := range []int{0, 1, 5000, 70000} {
+			for _, ann := range []int{0, 1} {
+				for _, empty := range []int{0, 1} {
+					c.tag("h2-body-ended-by-trailers")
+					c.op(fmt.Sprintf("passtr body=%d chunk=%d announced=%d empty=%d sum=%s", body, []int{1 << 14, 1000}[(body+ann)%2], ann, empty, sum(passBody(body, body))))
+				}
+			}
+		}
 		for i := 0; i < c.count; i++ {
 			r := c.rng.fork()
 			proto := []string{"h1", "h2"}[r.intn(2)]
